@@ -251,12 +251,22 @@ func C02(sp *spec.Spec, ex *rt.Exchange) *Verdict {
 		v.Inconclusive = "value builder: " + ex.BuildErr
 		return v
 	}
-	if ex.Panic != "" {
+	if ex.Panic != "" && ex.StubIn == nil {
 		v.add(mkKey("panic", "panic:"+panicSite(ex.Panic), "", Explain(sp, m, ex.Case.Sent)), "panic while delivering a valid payload: %s", firstLine(ex.Panic))
 		return v
 	}
 	if ex.StubErr != "" {
 		// the payload was delivered; the scripted result could not be built (C03's problem)
+	}
+	if m.Payload != nil && !ex.Case.NoPay {
+		// the case generator must have produced a payload that satisfies the design
+		var viol []Violation
+		var und []string
+		Validate(sp, m.Payload.Type, m.Payload.Val, ex.Case.Sent, "", &viol, &und, 0)
+		if len(viol) > 0 || len(und) > 0 {
+			v.Inconclusive = "case generator produced a payload that does not satisfy the design"
+			return v
+		}
 	}
 	if ex.StubIn == nil {
 		class, text := describeErr(ex)
@@ -307,8 +317,7 @@ func C02(sp *spec.Spec, ex *rt.Exchange) *Verdict {
 		if strings.Count(d.Path, ".")+strings.Count(d.Path, "[")+strings.Count(d.Path, "{") > 1 {
 			nested = ":nested"
 		}
-		key := fmt.Sprintf("payload-mismatch:%s:%s%s:%s:%s", loc, kind, nested, diffClass(d), valClass(d.Want))
-		v.add(key, "payload attribute differs at %s", d.String())
+		v.add(mkKey("mismatch", "payload-mismatch", fmt.Sprintf("%s:%s%s:%s:%s", loc, kind, nested, diffClass(d), valClass(d.Want)), Explain(sp, m, ex.Case.Sent)), "payload attribute differs at %s", d.String())
 	}
 	return v
 }
@@ -368,8 +377,16 @@ func C03(sp *spec.Spec, ex *rt.Exchange) *Verdict {
 		v.Inconclusive = "request did not reach the stub (C02/C04)"
 		return v
 	}
+	if isViewed(sp, m) && ex.Panic != "" {
+		v.Inconclusive = "viewed result (C08)"
+		return v
+	}
 	if ex.Panic != "" {
-		v.add("panic:"+panicSite(ex.Panic), "panic while delivering a valid result: %s", firstLine(ex.Panic))
+		tags := Explain(sp, m, ex.Case.Sent)
+		if ex.Case.Outcome != nil {
+			tags = append(tags, ExplainResult(sp, m, ex.Case.Outcome.Result)...)
+		}
+		v.add(mkKey("panic", "panic:"+panicSite(ex.Panic), "", tags), "panic while delivering a valid result: %s", firstLine(ex.Panic))
 		return v
 	}
 	oc := ex.Case.Outcome
@@ -380,6 +397,15 @@ func C03(sp *spec.Spec, ex *rt.Exchange) *Verdict {
 	if ex.WireResp == nil || ex.ClientOut == nil {
 		v.Inconclusive = "no response recorded"
 		return v
+	}
+	if m.Result != nil {
+		var viol []Violation
+		var und []string
+		Validate(sp, m.Result.Type, m.Result.Val, oc.Result, "", &viol, &und, 0)
+		if len(viol) > 0 || len(und) > 0 {
+			v.Inconclusive = "case generator produced a result that does not satisfy the design"
+			return v
+		}
 	}
 	// status
 	okStatus := false
@@ -623,10 +649,33 @@ func ExplainResult(sp *spec.Spec, m *spec.Method, result any) []string {
 	tags := Explain(sp, fake, result)
 	if resp := pickResponse(m, result); resp != nil {
 		ro, _ := result.(map[string]any)
-		for _, h := range resp.Headers {
-			if arr, ok := ro[h.Attr].([]any); ok && len(arr) >= 2 {
-				tags = append(tags, "header-array-multi")
-				break
+		if rrt, _ := sp.Resolve(m.Result.Type); rrt != nil && rrt.Kind == spec.Object {
+			for _, h := range resp.Headers {
+				a := rrt.Attr(h.Attr)
+				if a == nil {
+					continue
+				}
+				if at, _ := sp.Resolve(a.Type); at != nil && at.Kind == spec.Array {
+					// arrays in response headers do not round trip (listed finding): joined with ", " by the
+					// server, read as one element by the client; an absent array is written as an empty header
+					arr, _ := ro[h.Attr].([]any)
+					if len(arr) != 1 {
+						tags = append(tags, "header-array-multi")
+						break
+					}
+				}
+			}
+		}
+		if resp.TagAttr != "" {
+			// tagged responses write their headers without a nil check (listed finding)
+			for _, h := range resp.Headers {
+				if h.Attr == resp.TagAttr {
+					continue
+				}
+				if v, ok := ro[h.Attr]; !ok || v == nil {
+					tags = append(tags, "tagged-response-header-absent")
+					break
+				}
 			}
 		}
 	}
